@@ -690,8 +690,8 @@ func (f *File) Write(p []byte) (n int, err error) {
 		return 0, err
 	}
 
-	// With `O_APPEND` every write goes to the end of the file, wherever the cursor is
-	if f.flags.Append {
+	// With `O_APPEND` every write goes to the end of the file, wherever the cursor is; a write of nothing leaves the cursor alone
+	if f.flags.Append && len(p) > 0 {
 		if _, err := f.writeBuf.Seek(0, io.SeekEnd); err != nil {
 			return 0, err
 		}
@@ -774,8 +774,8 @@ func (f *File) WriteString(s string) (ret int, err error) {
 		return 0, err
 	}
 
-	// With `O_APPEND` every write goes to the end of the file, wherever the cursor is
-	if f.flags.Append {
+	// With `O_APPEND` every write goes to the end of the file, wherever the cursor is; a write of nothing leaves the cursor alone
+	if f.flags.Append && len(s) > 0 {
 		if _, err := f.writeBuf.Seek(0, io.SeekEnd); err != nil {
 			return 0, err
 		}
